@@ -3,9 +3,9 @@
 // InterporationWeight::new.  sum_ok(w) := |sum(w) - 1| <= f64::EPSILON (false for NaN).
 //@harness name=weights_new_len1 tier=quick label=bounded(len=1) props=C19
 //@harness name=weights_new_len2 tier=quick label=bounded(len=2) props=C19
-//@harness name=weights_new_len3 tier=quick label=bounded(len=3) props=C19
+//@harness name=weights_new_len3 tier=quick label=bounded(len=3) props=C19 timeout=1500
 //@harness name=weights_new_len0 tier=quick label=proved props=C19
-//@harness name=weights_average tier=quick label=bounded(n<=4) props=C19
+//@harness name=weights_average tier=quick label=bounded(n<=4) props=C19 timeout=1500
 //@harness name=iw_new_shapes tier=quick label=bounded(2x3) props=C19,C20
 //@harness name=iw_rejected_update_keeps_weights tier=quick label=bounded(2-voices,2-streams,len-1-and-3) props=C19 timeout=600
 //@harness name=iw_accepted_update_only_that_vector tier=quick label=bounded(2-voices,2-streams) props=C19 timeout=600
